@@ -219,6 +219,17 @@ Theorem C09_http :
 Proof. exact http_answer_iff. Qed.
 Print Assumptions C09_http.
 
+(* the decoded view of a status body (RevocationStatus.UnmarshalJSON / decodeMTP): the
+   proof is the body's proof as written - at most 240 siblings, none null; existence flag,
+   siblings and auxiliary node are independent (a node_aux never changes the flag) *)
+Theorem C09_decode :
+  forall (m : wire_mtp) (rp : rproof),
+  decode_mtp (Some m) = Ok rp <->
+  (List.length (w_sibs m) <= 240)%nat /\
+  w_sibs m = map Some (r_sibs rp) /\ r_ex rp = w_ex m /\ r_aux rp = w_aux m.
+Proof. exact decode_mtp_spec. Qed.
+Print Assumptions C09_decode.
+
 (* never a panic, and nothing but an answer or an error *)
 Theorem C09_http_total :
   forall h : http_result,
